@@ -4,6 +4,7 @@
 import Rtp.Proofs.AV1PayTop
 namespace Rtp.Model.AV1
 open Rtp Rtp.Model Rtp.Spec.Av1Rtp
+open Rtp.Model.ObuLemmas
 
 theorem toUInt64_toNat_small (n : Nat) (h : n < 2 ^ 56) : n.toUInt64.toNat = n := by
   simp [Nat.toUInt64]; omega
